@@ -118,6 +118,14 @@ def getIdx {α} (l : List α) (i : Int) : Except AmpyErr α :=
     | none => .error (.other "IndexError")
   else .error (.other "IndexError")
 
+/-- Python's `range(n)` for an `int` `n` (empty when `n ≤ 0`). -/
+def pyRange (n : Int) : List Int := (List.range n.toNat).map fun k => ((k : Nat) : Int)
+
+/-- Reading a local that is only bound on some paths: `UnboundLocalError` when it is not. -/
+def unboundLocal {α} : Option α → Except AmpyErr α
+  | some v => .ok v
+  | none => .error (.other "UnboundLocalError")
+
 /-- Python's `int(x)` for an exact rational (truncation toward zero). -/
 def truncRat (r : Rat) : Int := if 0 ≤ r then r.floor else r.ceil
 
